@@ -41,6 +41,7 @@ class Report:
     analysed: dict = field(default_factory=dict)
     not_decided: str = ""
     selftest: list[dict] = field(default_factory=list)
+    floors: list[tuple] = field(default_factory=list)
     t0: float = field(default_factory=time.time)
 
     def rule(self, rule: str, text: str) -> None:
@@ -73,6 +74,16 @@ class Report:
             self.violations.append(
                 Violation(rule, loc, where, construct, message, path))
         return ok
+
+    def floor(self, rule: str, n: int, minimum: int, what: str) -> None:
+        """Instance-count floor (a rule that matches nothing passes
+        vacuously). Evaluated after all rules ran; an unmet floor is an
+        ANALYSIS-ERROR unless violations were already found."""
+        self.floors.append((rule, n, minimum, what))
+
+    def unmet_floors(self) -> list[str]:
+        return [f"{r}: {n} {w}, floor {m}" for r, n, m, w in self.floors
+                if n < m]
 
     def info(self, rule: str, text: str) -> None:
         self.notes.append(f"{rule}: {text}")
